@@ -8,7 +8,10 @@ ID = "C09"
 THEOREMS = ["C09_inline", "C09_undefined_macro", "C09_too_few_arguments", "C09_deferred_argument", "C09_code_splice",
             "C09_code_splice_not_code", "C09_inline_deferred", "C09_deferred_flag", "C09_deferred_assembly",
             "C09_inline_assembly", "C09_inline_assembly_deferred", "C09_code_argument_assembly",
-            "C09_nested_splices_assembly", "C09_mixed_arguments_assembly"]
+            "C09_nested_splices_assembly", "C09_mixed_arguments_assembly",
+            # the printer / front-end round trip that lifts the AST-level statements to source text
+            "Front_roundtrip", "Front_assemble_printed", "Front_assemble_ast_printed"]
+PROOF_HEADER = "From A816 Require Import Properties.C09 Properties.FrontEnd."
 RULE = ("generated macro definitions (0-3 parameters, all statement kinds in bodies, local labels, nested calls, code-block "
         "parameters) x argument expressions (literals, constants, backward/forward labels, names equal to parameter names) "
         "x 1-4 applications; each program is compared with the model and with its mechanically inlined twin "
@@ -89,3 +92,8 @@ def cases(ctx):
                 "src": f"*={org:#08x}\n.macro r(n) {{\n.db n\n}}\nr(7)\n", "twin_src": f"*={org:#08x}\n.db 7\n",
                 "spec": {"t": "twin", "labels": False}})
     return out
+
+
+def instantiate(gen_q):
+    from .. import frontinst
+    return frontinst.instantiate(gen_q, "c09")
